@@ -97,7 +97,7 @@ m = {
  "engines": [{"name": "fpsa", "path": "fpsa/", "serves_properties": sorted(claimed), "kind_free_text": "purpose-built Go static analyser (go/packages + go/ssa + VTA call graph; SCCP, provenance, path and table-extraction engines; ~60 repository-specific rules)"}],
  "checks": checks,
  "not_applicable": na,
- "notes": "Static analysis only: every check re-loads /repo's working tree (go/packages, offline), builds SSA and decides obligations; nothing under /repo is executed. Known findings: known_findings.json; reviewed obligations: fpsa/reviewed.json.",
+ "notes": "Static analysis only: every check re-loads /repo's working tree (go/packages, offline), builds SSA and decides obligations; nothing under /repo is executed. Known findings: known_findings.json; reviewed obligations: fpsa/reviewed.json; fingerprints of unexported anchors (rename tolerance): fpsa/anchors.json (read-only in checks). Self-tests of the checker: tools/mutants.sh (61 property-breaking mutants must be reported), tools/seed_own.sh (72 independent seeded changes), tools/refactors.sh (40 independent behaviour-preserving refactorings must stay silent; 39 do, see DESIGN 10.5c).",
 }
 json.dump(m, open(os.path.join(V, "MANIFEST.json"), "w"), indent=1)
 print("claimed", sorted(claimed), "n/a", [x["property_id"] for x in na])
